@@ -94,3 +94,67 @@ func VxH08fanin() {
 		}
 	}
 }
+
+// VxH02glob: a dependent file globber waits for ALL of its upstream before it globs: the
+// first run produces a downstream output for every upstream file, and running the same
+// workflow again executes nothing.
+func VxH02glob() {
+	vxCmdFree(false, false)
+	vxSetEnv("SCIPIPE_BUFSIZE", "1")
+	build := func() *scipipe.Workflow {
+		wf := scipipe.NewWorkflowCustomLogFile("w", 4, "log/w.log")
+		u := wf.NewProc("u", "vcmd w:{o:out} n:{p:x}")
+		u.SetOut("out", "data/{p:x}.up.txt")
+		u.InParam("x").FromStr("a", "b", "c")
+		gl := NewFileGlobberDependent(wf, "glob", "data/*.up.txt")
+		gl.InDependency().From(u.Out("out"))
+		d := wf.NewProc("d", "vcmd r:{i:in} w:{o:out}")
+		d.SetOut("out", "{i:in}.d.txt")
+		d.In("in").From(gl.Out())
+		return wf
+	}
+	vxPreemptBudget(vxGet("preempt"))
+	k1 := vxRun(func() { build().Run() })
+	vxAssert(k1 == "returned", "C02.glob.first-run-completes")
+	vxReach("ran")
+	for _, x := range []string{"a", "b", "c"} {
+		vxAssert(vxFSKind("data/"+x+".up.txt.d.txt") == vxFile, "C04.glob.every-upstream-file-processed")
+	}
+	n1 := vxInvCount()
+	vxPreemptBudget(0)
+	k2 := vxRun(func() { build().Run() })
+	vxAssert(k2 == "returned", "C02.glob.second-run-completes")
+	vxAssert(vxInvCount() == n1, "C02.rerun-executes-nothing")
+}
+
+// VxH07rerun: re-running a completed workflow that contains a FileSplitter (which skips
+// its work when the split files exist): components that skip existing work leave the task
+// slots alone, so a task of another process that needs every slot still gets them.
+func VxH07rerun() {
+	vxCmdFree(false, false)
+	max := vxConcrete(vxInt("max", 1, 2))
+	vxFSPutLines("lines.txt", []string{"l1", "l2", "l3", "l4"})
+	build := func(withLate bool) *scipipe.Workflow {
+		wf := scipipe.NewWorkflowCustomLogFile("w", max, "log/w.log")
+		src := NewFileSource(wf, "src", "lines.txt")
+		sp := NewFileSplitter(wf, "split", 2)
+		sp.InFile().From(src.Out())
+		c := wf.NewProc("c", "vcmd r:{i:in} w:{o:out}")
+		c.SetOut("out", "{i:in}.c.txt")
+		c.In("in").From(sp.OutSplitFile())
+		if withLate {
+			late := wf.NewProc("late", "vcmd w:{o:out} n:{p:x}")
+			late.SetOut("out", "late_{p:x}.txt")
+			late.CoresPerTask = max
+			late.InParam("x").FromStr("1", "2")
+		}
+		return wf
+	}
+	k1 := vxRun(func() { build(false).Run() })
+	vxAssert(k1 == "returned", "C07.rerun.first-run-completes")
+	vxPreemptBudget(vxGet("preempt"))
+	k2 := vxRun(func() { build(true).Run() })
+	vxReach("ran")
+	vxAssert(k2 == "returned", "C07.rerun.tasks-waiting-for-slots-run")
+	vxAssert(vxFSKind("late_1.txt") == vxFile && vxFSKind("late_2.txt") == vxFile, "C07.rerun.tasks-waiting-for-slots-run")
+}
